@@ -904,3 +904,246 @@ def rule_graph_rewrite_simulation(ctx, R: str, title: str = None):
       problems.append(f'tensors annotated as quantized (subgraph, tensor, params) {got_q}; expected {sorted(ref_quantized)}')
     ctx.check(R, not problems, tg.node, tg, f'case "{cname}"', '; '.join(problems[:3]))
   ctx.sample(R, {'cases': [c[0] for c in cases]})
+
+
+# ------------------------------------------------- whole-pipeline simulation
+def rule_pipeline_simulation(ctx, R: str, title: str = None):
+  """calibrate -> plan -> instructions -> graph rewrite, all with the
+  repository's own code on label models (exact array model for the numerics;
+  stand-ins only for the TFLite interpreter object and the flatbuffer classes).
+  The oracle is the property itself, read off the resulting graph: an operator
+  the rule list selects for static-range integer compute reads and writes
+  integer activations and an integer constant weight; a dynamic-range operator
+  keeps float activations and reads an integer constant; a weight-only operator
+  reads its weight through a DEQUANTIZE of an integer constant; every other
+  operator (unselected, unknown) still reads and writes float tensors; graph
+  inputs / outputs stay float unless INPUT / OUTPUT is selected; the graph is
+  topologically valid and inserted QUANTIZE / DEQUANTIZE convert between the
+  types of their neighbours."""
+  import re as _re  # pylint: disable=g-import-not-at-top
+  from sa import absint, consteval  # pylint: disable=g-import-not-at-top
+  from sa.consteval import Obj, Ext, Ref  # pylint: disable=g-import-not-at-top
+  from sa.ndarr import NdArr  # pylint: disable=g-import-not-at-top
+  from sa.rules import c11, c19  # pylint: disable=g-import-not-at-top
+  rs = ctx.rule(R, title or 'whole pipeline on label models: each operator ends up in exactly the mode its rule selects, everything else stays float, the graph stays valid', floor=1)
+  CAL, PG = 'calibrator:Calibrator', 'params_generator:ParamsGenerator'
+  TIG, PERF = 'transformation_instruction_generator:TransformationInstructionsGenerator', 'transformation_performer:TransformationPerformer'
+  cal = ctx.repo.func(f'{CAL}.calibrate')
+  gen = ctx.repo.func(f'{PG}.generate_quantization_parameters')
+  q2i = ctx.repo.func(f'{TIG}.quant_params_to_transformation_insts')
+  tg = ctx.repo.func(f'{PERF}.transform_graph')
+  ctx.instance(R)
+  BO, TT = consteval.schema_enum('BuiltinOperator'), consteval.schema_enum('TensorType')
+  code = lambda n: Ext(f'BuiltinOperator.{n}', BO[n])
+  OP, ALG, drq, srq, bad = c11._domain(ctx)  # pylint: disable=protected-access
+  MM = ALG['MIN_MAX_UNIFORM_QUANT']
+  CP = {e.name: e for e in tables.enum(ctx, 'qtyping:ComputePrecision')}
+  wonly = tables.construct(ctx, common.OPCFG, weight_tensor_config=tables.tensor_config(ctx, num_bits=8), compute_precision=CP['FLOAT'], explicit_dequantize=True)
+  reg = tables.registry(ctx)
+  CFG = {'srq': srq, 'drq': drq, 'wonly': wonly}
+  KIND = {'fc': 'FULLY_CONNECTED', 'abs': 'CUSTOM', 'sm': 'SOFTMAX'}
+  # models: tensors (name, is_const), ops (label, kind, inputs, outputs), graph inputs, outputs
+  M1 = ([('x', 0), ('a', 0), ('w', 1), ('h', 0), ('out', 0)], [('abs1', 'abs', [0], [1]), ('fc', 'fc', [1, 2], [3]), ('abs2', 'abs', [3], [4])], [0], [4])
+  M2 = ([('x', 0), ('w1', 1), ('h', 0), ('w2', 1), ('out', 0)], [('fc1', 'fc', [0, 1], [2]), ('fc2', 'fc', [2, 3], [4])], [0], [4])
+  M3 = ([('x', 0), ('w1', 1), ('h', 0), ('w2', 1), ('o1', 0), ('o2', 0)], [('fc1', 'fc', [0, 1], [2]), ('fc2', 'fc', [2, 3], [4]), ('abs', 'abs', [2], [5])], [0], [4, 5, 2])
+  # rule lists: (regex, operator kind or '*' / 'INPUT' / 'OUTPUT', mode)
+  cases = [
+      ('M1 FC static', M1, [('.*', 'fc', 'srq')]),
+      ('M1 FC dynamic', M1, [('.*', 'fc', 'drq')]),
+      ('M1 FC weight-only', M1, [('.*', 'fc', 'wonly')]),
+      ('M1 FC static + OUTPUT static', M1, [('.*', 'fc', 'srq'), ('.*', 'OUTPUT', 'srq')]),
+      ('M1 FC static + INPUT static', M1, [('.*', 'fc', 'srq'), ('.*', 'INPUT', 'srq')]),
+      ('M2 both FC static', M2, [('.*', 'fc', 'srq')]),
+      ('M2 first FC static only', M2, [('h;', 'fc', 'srq')]),
+      ('M2 second FC static only', M2, [('out;', 'fc', 'srq')]),
+      ('M2 first static, second dynamic', M2, [('.*', 'fc', 'srq'), ('out;', 'fc', 'drq')]),
+      ('M2 both static, INPUT and OUTPUT static', M2, [('.*', 'fc', 'srq'), ('.*', 'INPUT', 'srq'), ('.*', 'OUTPUT', 'srq')]),
+      ('M3 both FC static, fan-out with an unknown reader and three outputs', M3, [('.*', 'fc', 'srq')]),
+      ('M3 first FC static only', M3, [('h;', 'fc', 'srq')]),
+      ('M3 second FC weight-only, first static', M3, [('h;', 'fc', 'srq'), ('o1;', 'fc', 'wonly')]),
+      ('M3 nothing selected', M3, [('nomatch', 'fc', 'srq')]),
+  ]
+  F32, I8 = TT['FLOAT32'], TT['INT8']
+  tval = lambda t: t.value if isinstance(t, Ext) else t
+  rs.exhaustive = True
+  for cname, (tensors, ops, gin, gout), rules in cases:
+    names = [n for n, _ in tensors]
+    wts = {n: NdArr((2, 2), [5 + i, -7, 2, 9 - i]) for i, (n, c) in enumerate(tensors) if c}
+
+    def model():
+      # like the converter: every tensor has its own buffer (empty for runtime tensors); buffer 0 is the reserved empty one
+      ts = [Obj('x:TensorT', {'name': n.encode(), 'buffer': i + 1, 'type': F32, 'shape': [2, 2] if c else [1, 2], 'quantization': None})
+            for i, (n, c) in enumerate(tensors)]
+      os_ = [Obj('x:OperatorT', {'label': lab, 'opcodeIndex': ['fc', 'abs', 'sm'].index(k), 'inputs': list(i), 'outputs': list(o), 'builtinOptions': None}) for lab, k, i, o in ops]
+      sg = Obj('x:SubGraphT', {'tensors': ts, 'operators': os_, 'inputs': list(gin), 'outputs': list(gout), 'name': b'main'})
+      bufs = [Obj('x:BufferT', {'data': None, 'offset': 0, 'size': 0})] + [Obj('x:BufferT', {'data': (f'float-bytes-of-{n}' if c else None), 'offset': 0, 'size': 0}) for n, c in tensors]
+      return Obj('x:ModelT', {'subgraphs': [sg], 'buffers': bufs, 'signatureDefs': None,
+                              'operatorCodes': [Obj('x:OperatorCodeT', {'builtinCode': code(KIND[k])}) for k in ('fc', 'abs', 'sm')]})
+    cur = {'k': 0}
+
+    def content(k):
+      return {n: NdArr((1, 2), [k + i, -2 * k - i]) for i, (n, c) in enumerate(tensors) if not c}
+    details = [{'name': n, 'index': i, 'dtype': 'float32', 'quantization_parameters': {'scales': [], 'zero_points': [], 'quantized_dimension': 0}} for i, n in enumerate(names)]
+    interp = Obj('x:Interpreter', {
+        'reset_all_variables': _StandIn(lambda a, k, kind=None: None, 'r'),
+        'get_tensor_details': _StandIn(lambda a, k, kind=None: [dict(d) for d in details], 'd'),
+        'get_tensor': _StandIn(lambda a, k, kind=None: (wts[names[a[0]]] if names[a[0]] in wts else content(cur['k'])[names[a[0]]]), 't'),
+    })
+
+    def invoke(a, k):
+      cur['k'] = a[1]['k']
+      return {}
+
+    def lookup(alg, op, what):
+      try:
+        return Ref('func', reg[alg][op][what].fq)
+      except (KeyError, TypeError):
+        raise index.AnalysisError(f'{R}: registry lookup with an undecided key ({alg!r}, {op!r})')
+
+    def tensor_data(a, k):
+      t = a[0].fields
+      nm = t['name'].decode() if isinstance(t.get('name'), bytes) else None
+      return wts.get(nm)
+    hooks = {
+        c11.CHECK_FQ: (lambda a, k: c11._mk_interp(ctx).hooks[c11.CHECK_FQ](a, k)),  # pylint: disable=protected-access
+        'algorithm_manager.get_init_qsv_func': lambda a, k: lookup(a[0], a[1], 'init'),
+        'algorithm_manager.get_quantization_func': lambda a, k: lookup(a[0], a[1], 'calibrate' if getattr(a[2], 'name', '') == 'CALIBRATE' else 'materialize'),
+        'tfl_interpreter_utils.invoke_interpreter_signature': invoke,
+        'tfl_interpreter_utils.get_signature_main_subgraph_index': lambda a, k: 0,
+        'tfl_flatbuffer_utils.get_tensor_data': tensor_data,
+        'np.issubdtype': lambda a, k: True,
+        'schema_py_generated.OperatorT': lambda a, k: Obj('x:OperatorT', {'label': None, 'opcodeIndex': None, 'inputs': None, 'outputs': None, 'builtinOptions': None}),
+        'schema_py_generated.TensorT': lambda a, k: Obj('x:TensorT', {'name': None, 'shape': None, 'type': None, 'buffer': None, 'quantization': None}),
+        'schema_py_generated.OperatorCodeT': lambda a, k: Obj('x:OperatorCodeT', {'builtinCode': None}),
+        'schema_py_generated.QuantizationParametersT': lambda a, k: Obj('x:QuantizationParametersT', {'scale': None, 'zeroPoint': None, 'quantizedDimension': 0}),
+    }
+    it = absint.Interp(ctx.repo, ctx.ev, hooks=hooks)
+    store = {}
+    for rx, kind, mode in rules:
+      opn = OP[KIND[kind]] if kind in KIND else OP[kind if kind != '*' else 'ALL_SUPPORTED']
+      store.setdefault(rx, []).append(c11._recipe(rx, opn, MM, CFG[mode]))  # pylint: disable=protected-access
+    rm = Obj('recipe_manager:RecipeManager', {'_scope_configs': store})
+    need = any(m == 'srq' for _, _, m in rules)
+    stats = None
+    if need:
+      calo = Obj(CAL, {'_flatbuffer_model': model(), '_tfl_interpreter': interp, '_tensor_content_map': {}, '_model_qsvs': {}, '_cached_output': []})
+      o1 = it.outcomes(cal, [calo, [{'k': 1}, {'k': 2}], rm, None], copy_args=False)
+      if len(o1) != 1 or o1[0].kind != 'return':
+        ctx.check(R, False, cal.node, cal, cname, f'calibrate: {[x.short()[:120] for x in o1]}')
+        continue
+      stats = calo.fields['_model_qsvs']
+    m = model()
+    from sa.rules import c15 as _c15  # pylint: disable=g-import-not-at-top
+    b2t = it.outcomes(ctx.repo.func('utils.tfl_flatbuffer_utils:buffer_to_tensors'), [m], copy_args=False)
+    pg = Obj(PG, {'flatbuffer_model': model(), 'model_quant_results': {}, 'buffer_to_tensors': b2t[0].value if len(b2t) == 1 and b2t[0].kind == 'return' else {}})
+    o2 = it.outcomes(gen, [pg, rm, stats], copy_args=False)
+    if len(o2) != 1 or o2[0].kind != 'return':
+      ctx.check(R, False, gen.node, gen, cname, f'plan generation: {[x.short()[:160] for x in o2]}')
+      continue
+    plan = pg.fields['model_quant_results']
+    tig = Obj(TIG, {'TensorGraphInfo': c19._Ctor(f'{TIG}.TensorGraphInfo', ['tensor_id', 'subgraph_id', 'producer', 'consumers']), 'flatbuffer_model': None, '_tensor_name_to_graph_info': {}})  # pylint: disable=protected-access
+    o3 = it.outcomes(q2i, [tig, plan, m], copy_args=False)
+    if len(o3) != 1 or o3[0].kind != 'return':
+      ctx.check(R, False, q2i.node, q2i, cname, f'instruction generation: {[x.short()[:160] for x in o3]}')
+      continue
+    perf = it.construct(PERF, [], {}, None, 0)
+    o4 = it.outcomes(tg, [perf, o3[0].value, m], copy_args=False)
+    if len(o4) != 1 or o4[0].kind != 'return':
+      ctx.check(R, False, tg.node, tg, cname, f'graph rewrite: {[x.short()[:160] for x in o4]}')
+      continue
+    # ---------------------------------------------------------------- oracle
+    sg = m.fields['subgraphs'][0]
+    T = sg.fields['tensors']
+    codes = m.fields['operatorCodes']
+    problems = []
+
+    def mode_of(label, kind, outs):
+      scope = ''.join(names[o] + ';' for o in outs if o != -1) if kind in KIND else ''
+      got = None
+      for rx, k, md in rules:
+        if k == kind and _re.search(rx, scope):
+          got = md
+      return got
+
+    def io_mode(kind, tensor_ids):
+      scope = ''.join(names[o] + ';' for o in tensor_ids)
+      got = None
+      for rx, k, md in rules:
+        if k == kind and _re.search(rx, scope):
+          got = md
+      return got
+    ttype = lambda i: tval(T[i].fields['type'])
+    producer_pos = {}
+    for pos, op in enumerate(sg.fields['operators']):
+      for o in op.fields['outputs']:
+        if o in producer_pos:
+          problems.append(f'tensor {o} has two producers')
+        producer_pos[o] = pos
+    for pos, op in enumerate(sg.fields['operators']):
+      f = op.fields
+      for i in f['inputs']:
+        if i != -1 and i in producer_pos and producer_pos[i] >= pos:
+          problems.append(f'operator at {pos} ({f["label"] or "inserted"}) reads tensor {T[i].fields["name"]} before it is produced')
+      bad_idx = [x for x in list(f['inputs']) + list(f['outputs']) if x != -1 and not (isinstance(x, int) and 0 <= x < len(T))]
+      if bad_idx or (f['label'] is None and not (isinstance(f['opcodeIndex'], int) and 0 <= f['opcodeIndex'] < len(codes))):
+        problems.append(f'operator at {pos} ({f["label"] or "inserted"}) refers to tensors {bad_idx} / operator code {f["opcodeIndex"]} that do not exist')
+        continue
+      if f['label'] is None:
+        c = codes[f['opcodeIndex']].fields['builtinCode']
+        cv = c.value if isinstance(c, Ext) else c
+        it_, ot_ = ttype(f['inputs'][0]), ttype(f['outputs'][0])
+        if cv == BO['QUANTIZE']:
+          if not (it_ == F32 and ot_ != F32) and not (it_ != F32 and ot_ != F32):
+            problems.append(f'QUANTIZE at {pos} converts type {it_} to {ot_}')
+        elif cv == BO['DEQUANTIZE']:
+          if not (it_ != F32 and ot_ == F32):
+            problems.append(f'DEQUANTIZE at {pos} converts type {it_} to {ot_}')
+        else:
+          problems.append(f'inserted operator at {pos} has code {cv}')
+        continue
+      lab, kind, oi, oo = next(x for x in ops if x[0] == f['label'])
+      md = mode_of(lab, kind, oo)
+      for slot, (orig_t, cur_t) in enumerate(zip(oi, f['inputs'])):
+        is_const = bool(tensors[orig_t][1])
+        ty = ttype(cur_t)
+        if is_const:
+          if md in ('srq', 'drq'):
+            if not (ty == I8 and T[cur_t].fields['quantization'] is not None and m.fields['buffers'][T[cur_t].fields['buffer']].fields['data'] not in (None, f'float-bytes-of-{names[orig_t]}')):
+              problems.append(f'{lab} ({md}): weight operand {T[cur_t].fields["name"]} has type {ty}, expected an INT8 constant with parameters')
+          elif md == 'wonly':
+            src = next((q for q in sg.fields['operators'] if cur_t in q.fields['outputs']), None)
+            okw = ty == F32 and src is not None and src.fields['label'] is None and ttype(src.fields['inputs'][0]) == I8 and m.fields['buffers'][T[src.fields['inputs'][0]].fields['buffer']].fields['data'] is not None
+            if not okw:
+              problems.append(f'{lab} (weight-only): weight operand {T[cur_t].fields["name"]} must be the float output of a DEQUANTIZE of an INT8 constant')
+          elif ty != F32 or T[cur_t].fields['quantization'] is not None:
+            problems.append(f'{lab} (not selected): constant {T[cur_t].fields["name"]} has type {ty} / parameters, must stay float')
+        else:
+          want = I8 if md == 'srq' else F32
+          if ty != want:
+            problems.append(f'{lab} ({md or "not selected"}): activation input {T[cur_t].fields["name"]} has type {ty}, expected {want}')
+      for orig_t, cur_t in zip(oo, f['outputs']):
+        want = I8 if md == 'srq' else F32
+        if ttype(cur_t) != want:
+          problems.append(f'{lab} ({md or "not selected"}): output {T[cur_t].fields["name"]} has type {ttype(cur_t)}, expected {want}')
+    want_in = I8 if io_mode('INPUT', gin) == 'srq' else F32
+    for t in sg.fields['inputs']:
+      if ttype(t) != want_in:
+        problems.append(f'graph input {T[t].fields["name"]} has type {ttype(t)}, expected {want_in}')
+    want_out = I8 if io_mode('OUTPUT', gout) == 'srq' else F32
+    for t in sg.fields['outputs']:
+      if ttype(t) != want_out:
+        problems.append(f'graph output {T[t].fields["name"]} has type {ttype(t)}, expected {want_out}')
+    if len(sg.fields['outputs']) != len(gout) or sg.fields['inputs'] != list(gin):
+      problems.append(f'graph inputs / outputs changed arity: {sg.fields["inputs"]} / {sg.fields["outputs"]}')
+    labels = [o.fields['label'] for o in sg.fields['operators'] if o.fields['label'] is not None]
+    if labels != [x[0] for x in ops]:
+      problems.append(f'original operators reordered or lost: {labels}')
+    nm = [t.fields['name'] for t in T]
+    if len(set(nm)) != len(nm):
+      problems.append(f'tensor names not unique: {nm}')
+    for i, t in enumerate(T):
+      ty = tval(t.fields['type'])
+      if (ty != F32) != (t.fields['quantization'] is not None):
+        problems.append(f'tensor {t.fields["name"]}: type {ty} but parameters {"present" if t.fields["quantization"] is not None else "absent"}')
+    ctx.check(R, not problems, tg.node, tg, f'case "{cname}": operators {[(o.fields["label"] or "new") for o in sg.fields["operators"]]}', '; '.join(problems[:3]))
+  ctx.sample(R, {'cases': [c[0] for c in cases]})
